@@ -182,8 +182,8 @@ def add_engine(U):
          header_subs=[("ctx::Ctx", "Ctx"), ("ctx::Result<()>", "Result<(), CtxError>")],
          subs=[("let t = metrics::$X;", "", 1), ("t.observe();", "", 1),
                ("anyhow_error()\n                    .into()", "anyhow_into_ctx(anyhow_error())", None),
-               ("b.verify(self.genesis.hash(), epoch, &schedule_with_lifetime.schedule)\n                        .context(())?",
-                "b.verify(self.genesis.hash(), epoch, &schedule_with_lifetime.schedule).map_err(|verif_e| anyhow_into_ctx(anyhow_error()))?   /* R-errmsg: .context()? on a non-anyhow error */"),
+               (".verify(self.genesis.hash(), epoch, &schedule_with_lifetime.schedule)\n                        .context(())?",
+                ".verify(self.genesis.hash(), epoch, &schedule_with_lifetime.schedule).map_err(|verif_e| anyhow_into_ctx(anyhow_error()))?   /* R-errmsg: .context()? on a non-anyhow error */"),
                ("""sync::wait_for(ctx, &mut self.block_store.subscribe(), |block_store| {
             block_store.queued.next() >= block.number()
         })""", "wait_for_queued_next_ge(ctx, &self.block_store, block.number())   /* R-stub */"),
@@ -197,7 +197,7 @@ def add_engine(U):
 
 
 def build(repo):
-    U = Unit("blockstore", ["C04"], desc="block store", uses=T.USES + "\nuse std::collections::VecDeque;",
+    U = Unit("blockstore", ["C04", "C08"], desc="block store", uses=T.USES + "\nuse std::collections::VecDeque;",
              crate_attrs="#![feature(allocator_api)]")
     U.repo = repo
     T.add_base_types(U)
